@@ -503,3 +503,17 @@ Proof.
     rewrite <- (payload_nopk s Hl), skipn_firstn_comm. reflexivity.
 Qed.
 Transparent firstn skipn.
+
+(* from_bytes is the independent split of Spec/Bie1.v (length guard, magic, embedded key, the three offsets) *)
+Definition ct_of_split (t : option bytes * bytes * bytes) : ciphertext := MkCt (fst (fst t)) (snd (fst t)) (snd t).
+
+Theorem from_bytes_eq_split O s hp :
+  from_bytes O s hp = of_option (option_map ct_of_split (bie1_split (eo_ec O) hp s)).
+Proof.
+  unfold from_bytes, bie1_split. rewrite <- magic_bie1.
+  replace (if hp then 69%nat else 36%nat) with ((if hp then 37 else 4) + 32)%nat by (destruct hp; reflexivity).
+  destruct (Nat.ltb (length s) ((if hp then 37 else 4) + 32)); [reflexivity|].
+  destruct (bytes_eqb (firstn 4 s) magic); cbn [negb]; [|reflexivity].
+  destruct hp; [|reflexivity].
+  unfold pubkey_of_bytes. destruct (ec_dec (eo_ec O) (firstn 33 (skipn 4 s))); reflexivity.
+Qed.
